@@ -23,10 +23,10 @@ pub struct VerifBucket {
     /// The size recorded in the entry.
     pub size: usize,
 
-    /// The raw `prev` link of the entry (towards less recently used).
+    /// The raw `prev` link of the entry (towards more recently used).
     pub prev: usize,
 
-    /// The raw `next` link of the entry (towards more recently used).
+    /// The raw `next` link of the entry (towards less recently used).
     pub next: usize
 }
 
